@@ -472,6 +472,22 @@ impl<'a> Gen<'a> {
             }
             out.push(f);
         }
+        // a default function that is spelled exactly like the field it serves: the generated locals
+        // must not get in the way of the user's path
+        if self.profile.hostile_names && self.rng.chance(1, 3) {
+            out.push(Field {
+                rust: format!("own_{}", self.rng.next_u64() % 100_000_000),
+                ty: Ty::Sc(Sc::I64),
+                multiple: self.rng.chance(1, 4),
+                rename: None,
+                default: Def::Func,
+                skip: false,
+                flatten: false,
+                with: With::None,
+                post: Post::None,
+                split_attrs: false,
+            });
+        }
         // explicit renames must not collide with each other
         for i in 0..out.len() {
             if let Some(n) = out[i].rename.clone() {
